@@ -29,6 +29,7 @@ import DSymVerif.Proofs.FundGroupPair
 import DSymVerif.Proofs.FundGroupPres
 import DSymVerif.Proofs.FundGroupIso
 import DSymVerif.Proofs.FundGroupTree
+import DSymVerif.Proofs.FundGroupLetters
 import DSymVerif.Spec.C09
 
 namespace DSymVerif.C09
@@ -172,6 +173,22 @@ theorem cones_are_traced_words (ds : DSymData) (f : FundGroup)
     exact ⟨o.1, o.2.1, o.2.2, word, degree, hij, hj, hd, ht, hd1, hw⟩
   · rintro ⟨i, j, d, word, degree, hij, hj, hd, ht, hd1, hw⟩
     exact ⟨(i, j, d), mem_orbitList.2 ⟨mem_indexPairs.2 ⟨hij, hj⟩, hd⟩, word, degree, ht, hd1, hw⟩
+
+example : fundamentalGroup symB = .ok fgB := by decide +kernel
+
+/-! ## 5b. every returned letter is a generator -/
+
+/-- all letters of the relators, cone words and edge words are among `±1 … ±n`,
+    `n = nr_generators` (`Cosets.allGensOf n`, the alphabet of the coset-table routines) — for
+    every symbol on which the model returns.  (Relators need NOT be cyclically reduced:
+    `[1, 2, 2, -1]` is returned e.g. for the 4-chamber 2D symbol
+    `op = 2 2 3 / 2 1 2 / 1 3 1 / 4 4 4`, `v = 3 5 5 5 / 3 1 1 1`.) -/
+theorem letters_are_generators (ds : DSymData) (f : FundGroup) (h : fundamentalGroup ds = .ok f) :
+    (∀ w ∈ f.relators, ∀ x ∈ w, x ∈ Cosets.allGensOf f.nrGenerators) ∧
+    (∀ c ∈ f.cones, ∀ x ∈ c.1, x ∈ Cosets.allGensOf f.nrGenerators) ∧
+    (∀ k, ∀ x ∈ e2wGet f.edgeToWord k, x ∈ Cosets.allGensOf f.nrGenerators) :=
+  ⟨(fundamentalGroup_letters ds f h).1, (fundamentalGroup_letters ds f h).2.1,
+   (fundamentalGroup_letters ds f h).2.2.1⟩
 
 example : fundamentalGroup symB = .ok fgB := by decide +kernel
 
